@@ -274,7 +274,7 @@ func (S05) RunTape(t *sim.Tape, st *sim.Stats, keepLog bool) *sim.Outcome {
 	}
 	linkOf := map[string]string{}       // (proto, canonical value hash) -> link binary
 	stored := map[string]*storedInfo{}  // link binary -> info
-	storeStarted := map[string]uint64{} // (proto, canonical value hash) -> seq at which the first Store of it was invoked
+	storeStarted := map[string]uint64{} // link binary -> seq at which the first Store producing it was invoked
 	loaded := map[int]datamodel.Node{}  // value id -> a node previously loaded from storage
 	storedMh := map[string]bool{}
 	var hist []string
@@ -375,9 +375,13 @@ func (S05) RunTape(t *sim.Tape, st *sim.Stats, keepLog bool) *sim.Outcome {
 			n, impl := materialise(vi, p.how)
 			var l datamodel.Link
 			var err error
-			skey := fmt.Sprintf("%d|%x", pi, want.Hash())
-			if _, ok := storeStarted[skey]; !ok {
-				storeStarted[skey] = inv
+			// remember that a Store which will produce this link has begun. Keyed by the link itself
+			// (two prototypes of a run can be equivalent, e.g. two CIDv0 prototypes); ComputeLink is
+			// the instrument here, its agreement with Store is judged separately.
+			if pl, perr := lsys.ComputeLink(lp, n); perr == nil {
+				if _, ok := storeStarted[pl.Binary()]; !ok {
+					storeStarted[pl.Binary()] = inv
+				}
 			}
 			pan := catch(func() { l, err = lsys.Store(linking.LinkContext{}, lp, n) })
 			if err != nil && d != nil && (errors.Is(err, syscall.ENAMETOOLONG) || (ncl > 1 && errors.Is(err, syscall.EEXIST))) {
@@ -460,7 +464,7 @@ func (S05) RunTape(t *sim.Tape, st *sim.Stats, keepLog bool) *sim.Outcome {
 				st.Inc("probe.store_then_load")
 			case res.err == nil && si == nil && !(bk == 1 && mhStored):
 				// never stored (nor aliased by multihash in cidlink.Memory) and nothing in flight
-				started, inflight := storeStarted[key]
+				started, inflight := storeStarted[lb]
 				if !inflight || started > ret {
 					o.Fail("load-never-stored-succeeded", sig+" "+name, "%s of %s succeeded although nothing was ever stored under it", name, l)
 				}
